@@ -26,7 +26,7 @@ DUAL = ['map', 'starmap', 'filter', 'flat_map', 'scan', 'count', 'sum', 'mean', 
 class C01(Check):
     ID = 'C01'
     LEVEL = 'exploration'
-    BUDGET = {'quick': 30, 'thorough': 240}
+    BUDGET = {'quick': 75, 'thorough': 240}
     RULE = ('case = (pipeline P of 1..6 operators from the 29 dual-mode operators - tee_map with 2-4 branches in its three join modes, nested once -, keyed input: 1..8 groups '
             '(occasionally 50; every 150th case at scale: 300 groups, or groups of 400-800 items with take/batch parameters of 257+) of 0..40 items each, interleaving shape round-robin / blocks / reversed blocks / random / singletons-first; mode group_by, bare multiplex, or '
             'inside roll / split windows). Predicates return bool in the main class; a separate class uses predicates returning truthy non-bool values. '
@@ -47,7 +47,7 @@ class C01(Check):
         return with_prelude(self._generate(rng, tier, shard, nshards), rng, size=lambda c: sum(len(x) for x in c['seqs']))
 
     def _generate(self, rng, tier, shard, nshards):
-        n = 6000 if tier == 'quick' else 10 ** 7
+        n = 4500 if tier == 'quick' else 10 ** 7
         modes = ['group', 'group', 'group', 'multiplex', 'roll', 'split']
         for k in range(n):
             if k % 25 == 12:
@@ -67,7 +67,7 @@ class C01(Check):
                        'iseed': rng.randrange(1 << 30), 'truthy': False}
                 continue
             truthy = (k % 10 == 9)
-            scale = (k % 150 == 75)
+            scale = (k % 150 == 7)
             opts = gen.GenOpts(dual_only=True, max_depth=2 if not scale else 1, truthy_predicates=truthy, tee_weight=3, no_streaming_mutation=True,
                                scale=scale, exclude_ops=('fvariance', 'fstddev') if scale else ())
             prog, _ = gen.gen_pipeline(rng, 'i', rng.randint(1, 6), opts)
